@@ -49,6 +49,14 @@ Theorem C03_call : forall intrinsic nd params ret t lv args,
   (N.to_nat nd <= List.length args <= List.length params)%nat /\ t = ret /\ lv = false.
 Proof. exact wt_call_operands. Qed.
 
+(* matrix swizzles name components the matrix has; the result is an lvalue only without a repeated component *)
+Theorem C03_matrix_swizzle : forall idx t lv x,
+  check_node (KMSwz idx) t lv [x] = None ->
+  exists r c s, strip (e_ty x) = TMatrix r c s /\
+    forallb (fun i => (i / 4 <? r) && (i mod 4 <? c)) idx = true /\
+    lv = (e_lv x && nodupN idx)%bool.
+Proof. exact wt_matrix_swizzle. Qed.
+
 (* returns and initialisers *)
 Theorem C03_return : forall ret e, wt_stmt ret (SRet (Some e)) = None -> wt e = None /\ same (e_ty e) ret = true.
 Proof. exact wt_return. Qed.
@@ -82,3 +90,4 @@ Print Assumptions C03_call.
 Print Assumptions C03_return.
 Print Assumptions C03_return_nothing.
 Print Assumptions C03_initialiser.
+Print Assumptions C03_matrix_swizzle.
